@@ -27,6 +27,12 @@ LABELLED = [
     ("ValuesOfCorrectType", "{ echo(f: {tags: [1]}) }"),
     ("ValuesOfCorrectType", "{ me { friends(first: \"x\") { name } } }"),
     ("UniqueInputFieldNames", "{ echo(f: {min: 1, min: 2}) }"),
+    ("UniqueInputFieldNames", "{ echo(f: {min: 1, sub: {min: 2}, min: 3}) }"),
+    ("UniqueInputFieldNames", "{ echo(f: {sub: {min: 2, tags: []}, min: 1, color: RED, min: 3}) }"),
+    ("UniqueInputFieldNames", "{ echo(f: {min: 1, subs: [{min: 2}, {min: 3}], min: 4}) }"),
+    ("UniqueInputFieldNames", "{ echo(f: {sub: {sub: {min: 1}, min: 2, min: 3}}) }"),
+    ("UniqueInputFieldNames", "{ echo(f: {subs: [{min: 2}, {min: 3, min: 4}]}) }"),
+    ("UniqueInputFieldNames", "query ($f: Filter = {min: 1, sub: {}, min: 2}) { echo(f: $f) }"),
     ("KnownDirectives", "{ me @nope { name } }"),
     ("KnownDirectives", "query @skip(if: true) { count }"),
     ("UniqueDirectivesPerLocation", "{ me { name @skip(if: true) @skip(if: false) } }"),
@@ -100,6 +106,9 @@ VALID_TRICKY = [
     "query ($x: Int!, $c: Color!) { me { friends(first: $x) { name } } color(c: $c) }",
     "query ($t: String) { me { lim(tags: [$t]) } }",
     "{ echo(f: {tags: \"single\"}) me { lim(tags: \"one\") } }",
+    # the same input field name at different nesting levels / in sibling literals is no duplicate
+    "{ echo(f: {min: 1, sub: {min: 2, sub: {min: 3}}, tags: []}) }",
+    "{ echo(f: {subs: [{min: 1}, {min: 1}], min: 1}) a: echo(f: {min: 1}) }",
 ]
 
 
